@@ -67,11 +67,7 @@ pub fn gen(rng: &mut Rng, tier: &str) -> String {
     let reads = if saturating {
         // a homopolymer run of more than 65 535 bases, with a few other bases before and after it: the run's k-mer is
         // observed more often than its u16 count can tell, and its first / last observations carry flanks no other does
-        let b = rng.below(4) as u8;
-        let mut r: Vec<u8> = (0..rng.below(3)).map(|_| rng.below(4) as u8).collect();
-        r.extend(std::iter::repeat(b).take(rng.range(65600, 70000)));
-        r.extend((0..rng.below(4)).map(|_| rng.below(4) as u8));
-        vec![r]
+        vec![saturating_read(rng)]
     } else {
         gen_reads(rng, k, if tier == "thorough" { 30 } else { 8 }, if tier == "thorough" { 400 } else { 70 })
     };
